@@ -143,6 +143,12 @@ class Ctx:
         e.replace_macro('anyhow', 'Error::msg()')
         e.replace_macro('bail', 'return Err(Error::msg())')
         t = e.text
+        if hasattr(anchor, 'finditer'):
+            # an anchor given by SHAPE (a compiled regex): it must match exactly once; the matched text is the anchor
+            found = [m.group(0) for m in anchor.finditer(t)]
+            if len(found) != 1:
+                raise AnchorLost('%s [%s]: lift anchor /%s/ found %d times' % (rel, key, anchor.pattern, len(found)))
+            anchor = found[0]
         if t.count(anchor) != 1:
             raise AnchorLost('%s [%s]: lift anchor %r found %d times' % (rel, key, anchor, t.count(anchor)))
         if kind == 'block':
